@@ -35,6 +35,15 @@ CLAIMED = {
               "must / must-not / don't-care sender classes."),
         note="Generic IQ requests only (manager request APIs are not swept here); deterministic replay re-checked every 97th execution.",
         design_ref="§3 C07(a)"),
+    "C08": dict(
+        category="exploration",
+        technique="complete product enumeration of incoming IQs (type x payload x sender x id x extension set), one fresh real client session per case",
+        text=("Every combination of 6 type values, 153 payload forms, 4 sender classes, 2 ids and the extension sets none / defaults / all "
+              "27 bundled managers (thorough: each manager alone) is injected into a freshly logged-in QXmppClient over loopback TCP and the "
+              "number, type, id and address of the replies are counted. The property is a universal statement over payloads and "
+              "configurations, so the product is enumerated rather than sampled."),
+        note="Managers that need external storages or QNetworkAccessManager are not instantiated; quick restricts multi-child payloads to get/set from a contact.",
+        design_ref="§3 C08"),
     "C09": dict(
         category="model_checking", engine="bfs",
         technique="explicit-state BFS over event histories of the real client (loopback TCP, scripted XEP-0198 server) with a reference model compared after every step",
